@@ -25,11 +25,15 @@ def load_prefix(uri: str, ns_map: dict) -> str | None:
 def generate_prefix(uri: str, ns_map: dict) -> str:
     """Generate a prefix for the given uri and append it in the prefix-URI map."""
     namespace = Namespace.get_enum(uri)
-    if namespace:
+    if namespace and ns_map.get(namespace.prefix, uri) == uri:
         prefix = namespace.prefix
     else:
+        # Never overwrite an existing binding, pick the first free ns<number>
         number = len(ns_map)
         prefix = f"ns{number}"
+        while prefix in ns_map:
+            number += 1
+            prefix = f"ns{number}"
 
     ns_map[prefix] = uri
 
